@@ -121,7 +121,9 @@ def check(tier, seed):
     n = 12 if tier == "quick" else 96
     res = bounded.run_native("c07_schedule.py", ["--n", str(n), "--seed", str(seed)])
     lines, ev, err = bounded.report("C07", "compiled schedule vs executable contract", res, "c07_schedule.py")
-    extra = dict(bounded=[dict(ev, bound=f"{n} random 3-node systems (rates 1..20 Hz, windows 1..4, trainable / jittery delays, MCS / generational / topological x prune, 1-2 episodes): on the objects built by the real "
+    extra = dict(level="other", explanation="Hybrid: the rex-side scan body of apply_window and Window.push are proved (obligations / discharged below); the schedule itself (supergraph library, to_timings, "
+                 "to_networkx_graph, to_connected_graph, window selection) is validated on instances by the bounded stand-in, which is NOT a proof.",
+                 bounded=[dict(ev, bound=f"{n} random 3-node systems (rates 1..20 Hz, windows 1..4, trainable / jittery delays, MCS / generational / topological x prune, 1-2 episodes): on the objects built by the real "
                                           "pipeline - every needed vertex mapped exactly once, kind-preserving, supervisor step p in partition p; slot carries the vertex's own seq / times / windows; run mask true exactly "
                                           "where mapped; per-kind sequence order; every window producer strictly before its consumer; windows = last `window` (+extension) consumed messages, oldest first")],
                  assumptions=["the supergraph library's result (grow_supergraph / evaluate_supergraph) is NOT under contract: it is validated on the instances above only (bounded)",
